@@ -5,6 +5,8 @@
   python tools/rename_probe.py classes     every private class `_Name` -> `_NameRn`
   python tools/rename_probe.py attributes  every private attribute / field `self._x`, `_x: T` in a class body -> `_x_rn`
   python tools/rename_probe.py all         the four together
+  python tools/rename_probe.py counters    a call counter and a bounded call log (module-level state that changes no result) in every function
+                                           of every anchored module: the history rules must stay silent
   python tools/rename_probe.py sink        a new public function using every statement / expression form of Python 3.12 (selftest/fixtures/
                                            kitchen_sink.py.txt) appended to every module a property is anchored in: code the checks have never
                                            seen must not break them
@@ -218,6 +220,51 @@ def main():
             out = open(p, encoding='utf-8').read() + sink
             open(p, 'w', encoding='utf-8').write(out)  # (Python 3.12 syntax: parsed by the checks' own interpreter, not by this tool's)
         print(f'appended the syntax sink to {len(files)} modules')
+    elif what == 'counters':
+        # harmless module-level state in every function of every anchored module: a call counter and a bounded call log.  The
+        # history rules must stay silent (state that changes no result is no violation).  The rewrite runs under the package's own
+        # interpreter (Python 3.12 syntax).
+        files = set()
+        for line in open(os.path.join(VERIF, 'properties.jsonl'), encoding='utf-8'):
+            d = json.loads(line)
+            files.update(f for f in (d.get('anchors') or d.get('code_anchors') or {}).get('files', []) if f.endswith('.py'))
+        script = r'''
+import ast, sys
+n = 0
+for p in sys.argv[1:]:
+    src = open(p, encoding='utf-8').read()
+    tree = ast.parse(src)
+    lines = src.splitlines(keepends=True)
+    ins = []
+    for fn in ast.walk(tree):
+        if not isinstance(fn, ast.FunctionDef) or fn.col_offset not in (0, 4):
+            continue
+        if any(isinstance(x, (ast.Yield, ast.YieldFrom)) for x in ast.walk(fn)):
+            continue
+        k = 1 if (isinstance(fn.body[0], ast.Expr) and isinstance(getattr(fn.body[0], 'value', None), ast.Constant) and isinstance(fn.body[0].value.value, str)) else 0
+        if k >= len(fn.body) or any(isinstance(x, (ast.Global, ast.Nonlocal)) for x in ast.walk(fn)):
+            continue
+        if fn.body[k].lineno <= fn.body[0].lineno - (1 - k) or fn.body[k].lineno == fn.lineno or fn.body[k].col_offset <= fn.col_offset:
+            continue  # a body on the line of the def
+        st = fn.body[k]
+        ind = ' ' * st.col_offset
+        first = min([st.lineno] + [d.lineno for d in getattr(st, 'decorator_list', [])])
+        ins.append((first - 1, f"{ind}global _VP_CALLS\n{ind}_VP_CALLS += 1\n{ind}_VP_CALL_LOG.append({fn.name!r})\n{ind}del _VP_CALL_LOG[:-8]\n"))
+    for ln, text in sorted(ins, reverse=True):
+        lines[ln:ln] = [text]
+        n += 1
+    out = ''.join(lines) + "\n\n_VP_CALLS = 0\n_VP_CALL_LOG: list = []\n"
+    try:
+        ast.parse(out)
+    except SyntaxError as ex:
+        raise SystemExit(f'{p}: {ex}')
+    open(p, 'w', encoding='utf-8').write(out)
+print(n)
+'''
+        r2 = sh(['/venv/bin/python', '-c', script, *[os.path.join(wt, f) for f in sorted(files)]])
+        if r2.returncode:
+            raise SystemExit(r2.stderr[-500:])
+        print(f'call counter and call log added to {r2.stdout.strip()} functions of {len(files)} modules')
     elif what == 'params':
         n = rename_params(wt)
         print(f'renamed {n} parameters of private functions')
